@@ -321,6 +321,101 @@ func ruleErrflow(c *Ctx) *RuleResult {
 	} else {
 		r.fail("gocont-error-altered", p.Pos(gr.Pos()), "(*GoCont).RunInThread no longer returns the error value the Go function produced (error(v) must deliver v itself to the nearest protected call)")
 	}
+	// (e) only string messages get the position prefix: in (*Error).AddContext the store
+	// that replaces the message is behind the 'ok' of a conversion that can only say yes
+	// to a string — a conversion that can format a number (it reaches strconv or fmt)
+	// would turn error(42) into the string "chunk:1: 42"
+	if ac := p.Func("runtime", "(*Error).AddContext"); ac == nil {
+		r.broken("anchor unresolved: runtime.(*Error).AddContext")
+	} else {
+		formats := func(f *ssa.Function) string {
+			seen := map[*ssa.Function]bool{}
+			hit := ""
+			var walk func(g *ssa.Function, d int)
+			walk = func(g *ssa.Function, d int) {
+				if g == nil || seen[g] || g.Blocks == nil || d > 3 {
+					return
+				}
+				seen[g] = true
+				forEachInstr(g, func(ins ssa.Instruction) {
+					call, ok := ins.(ssa.CallInstruction)
+					if !ok {
+						return
+					}
+					cal := call.Common().StaticCallee()
+					if cal == nil {
+						return
+					}
+					if p.InModule(cal) {
+						walk(cal, d+1)
+						return
+					}
+					if n := fullName(cal); strings.HasPrefix(n, "strconv.") || strings.HasPrefix(n, "fmt.") {
+						hit = n
+					}
+				})
+			}
+			walk(f, 0)
+			return hit
+		}
+		nStores := 0
+		gc := newGuardCtx(ac)
+		forEachInstr(ac, func(ins ssa.Instruction) {
+			st, ok := ins.(*ssa.Store)
+			if !ok {
+				return
+			}
+			fa, ok := st.Addr.(*ssa.FieldAddr)
+			if !ok {
+				return
+			}
+			if _, tn, fn := fieldOfAddr(fa); tn != "Error" || fn != "message" {
+				return
+			}
+			// only the store of a freshly built string value (the prefixed message)
+			fresh := false
+			for w := range backSliceAllocs(st.Val, false) {
+				if cl, ok := w.(*ssa.Call); ok && calleeNamed(cl, "StringValue") {
+					fresh = true
+				}
+			}
+			if !fresh {
+				return
+			}
+			nStores++
+			verdict := "the store is not behind the result of a conversion"
+			for _, ge := range gc.MustEdges(ins.Block()) {
+				for w := range backSlice(ge.If.Cond, false) {
+					ex, ok := w.(*ssa.Extract)
+					if !ok || ex.Index != 1 {
+						continue
+					}
+					cl, ok := ex.Tuple.(*ssa.Call)
+					if !ok {
+						continue
+					}
+					cal := cl.Call.StaticCallee()
+					if cal == nil {
+						continue
+					}
+					if hit := formats(cal); hit != "" {
+						verdict = fnKey(cal) + " can format a value that is not a string (it reaches " + hit + ")"
+					} else {
+						verdict = ""
+					}
+				}
+			}
+			if verdict == "" {
+				r.ok("(e) AddContext prefixes the message only when a string-only conversion says it is a string")
+			} else {
+				r.fail("non-string-error-value-replaced", p.InstrPos(st), "(*Error).AddContext replaces the error value by a prefixed string, and "+verdict+": error(42) then reaches pcall as the string 'chunk:1: 42' instead of the number 42 — error(v) must deliver v itself unless v is a string")
+			}
+		})
+		r.count("addcontext_message_rewrites", nStores)
+		if nStores == 0 {
+			r.broken("(*Error).AddContext no longer stores a prefixed message (anchor moved?)")
+		}
+	}
 	return r
 }
 
